@@ -84,6 +84,9 @@ type Config struct {
 	ProbePreGreeting bool
 	Hostname         string
 	AllowUTF8        bool
+	// Multiline: every reply that would be a single line (except 334 and the EHLO reply) is sent as a
+	// two-line reply "code-... / code ..." (RFC 5321, section 4.2.1: any reply may be multi-line).
+	Multiline bool
 }
 
 // CmdRecord is one command (or end-of-data) with the reply it got.
@@ -346,6 +349,13 @@ func (s *Session) reply(rec *CmdRecord, code int, text string) error {
 	}
 	rec.Token = fmt.Sprintf("tok-c%d-s%d", s.ID, rec.Index)
 	lines := strings.Split(text, "\n")
+	if s.Cfg.Multiline && code != 334 && rec.Verb != "EHLO" && len(lines) == 1 {
+		first := "continued"
+		if f := strings.Fields(text); len(f) > 0 && len(f[0]) >= 5 && f[0][1] == '.' && strings.Count(f[0], ".") == 2 && f[0][0] >= '2' && f[0][0] <= '5' {
+			first = f[0] + " continued" // the enhanced status code is repeated on every line (RFC 2034)
+		}
+		lines = []string{first, lines[0]}
+	}
 	// the token goes on the last line so that it never disturbs EHLO keyword lines
 	lines[len(lines)-1] = strings.TrimRight(lines[len(lines)-1]+" ["+rec.Token+"]", " ")
 	if rec.Verb == "EHLO" && code == 250 && len(lines) > 1 {
